@@ -522,7 +522,10 @@ pub trait GuestMemory {
                         _ => return Err(Error::CallbackOutOfRange),
                     };
                     cur = match cur.overflowing_add(len as GuestUsize) {
-                        (x @ GuestAddress(0), _) | (x, false) => x,
+                        (x, false) => x,
+                        // The access reached the very top of the address space: nothing is
+                        // mapped beyond it, and it must not continue at address 0.
+                        (GuestAddress(0), true) => return Ok(total),
                         (_, true) => return Err(Error::GuestAddressOverflow),
                     };
                 }
